@@ -177,6 +177,26 @@ def loop_with_source(body, pred):
     return out
 
 
+def loop_nest(body):
+    """loop_with_source, with a loop over `outer.flat_map(|x| inner(x))` reported as the nest it stands for: the same loop is listed once with the
+    outer source and once with the inner source (element of the outer one substituted)"""
+    out = []
+    for (h, blocks, latches, src) in loop_with_source(body, lambda s_: True):
+        s0 = mir.strip(src)
+        if s0[0] == "var":
+            # `let mut it = <iterator>; while let Some(x) = it.next()`: the loop ranges over what `it` was initialised with
+            ds = var_def_exprs(body, s0[1])
+            if len(ds) == 1:
+                src = ds[0][1]
+        fs = mir.flat_source(src)
+        if fs is None:
+            out.append((h, blocks, latches, src))
+        else:
+            out.append((h, blocks, latches, fs[0]))
+            out.append((h, blocks, latches, fs[1]))
+    return out
+
+
 def stmt_writes(body, field):
     """K7 (one body): every write to a place projecting `.field`:
     ('assign', bb, idx, place_expr, value_expr) and ('mutref', bb, idx, place_expr, consumer-call-or-None)"""
